@@ -265,13 +265,16 @@ func defFromPB(t *btapb.Table) *TableDef {
 func wire[M proto.Message](in M, fresh M) M {
 	buf, err := proto.Marshal(in)
 	if err != nil {
-		panic(err)
+		panic(HarnessError("request does not marshal (unsound generator): " + err.Error()))
 	}
 	if err := proto.Unmarshal(buf, fresh); err != nil {
-		panic(err)
+		panic(HarnessError("request does not unmarshal: " + err.Error()))
 	}
 	return fresh
 }
+
+// HarnessError is a panic raised by the harness itself (never a finding).
+type HarnessError string
 
 // respCopy marshals the response (what gRPC does right after the handler
 // returns) and returns a private copy.
@@ -307,6 +310,9 @@ func (s *Srv) ExecCtx(ctx context.Context, op *Op, onSend func(n int) error) (re
 	res = &Result{}
 	defer func() {
 		if r := recover(); r != nil {
+			if he, ok := r.(HarnessError); ok {
+				panic("HARNESS: " + string(he))
+			}
 			res.Panic = fmt.Sprintf("%v\n%s", r, debug.Stack())
 		}
 	}()
